@@ -38,7 +38,7 @@ def tree_strategy(depth):
 
 
 TREE = tree_strategy(3)
-CASE = st.tuples(st.sampled_from(["upload_dir", "upload_dir", "upload_file", "download", "download", "listrec", "remove"]),
+CASE = st.tuples(st.sampled_from(["upload_dir", "upload_dir", "upload_file", "download", "download", "listrec", "remove", "download_here"]),
                  TREE, st.sampled_from(["", "d", "d1/d2", "/abs/d", "src"]), st.booleans(),
                  st.sampled_from(["/", "/r", "/r/sub"]), st.sampled_from([1, 3, 8192]), st.booleans(), st.booleans(),
                  st.booleans())
@@ -175,6 +175,26 @@ async def _run(loop, case, info):
                 d = sdiff(after, exp)
                 kind = "misplaced" if d["missing"] and d["unexpected"] else ("missing" if d["missing"] else "unexpected")
                 raise Violation(f"C09/download/{kind}/write_into={write_into}", dict(dest=dest, target=target, cwd=cwd, **d))
+        elif op == "download_here":
+            # the source is the working directory itself ('' or '.') or the server root ('/'): "download everything here"
+            await put(spio, t, "/r/src")
+            target = ["", ".", "/"][(2 if abs_spelling and relsrc else (1 if abs_spelling else 0))]
+            if target == "/":
+                exp_src = {k: v for k, v in harness.mem_tree(server).items()}
+            else:
+                await c.change_directory("/r/src")
+                exp_src = flat(t, "/")
+            before = mem_fs_tree(c.path_io.fs)
+            await guarded(op, c.download(target, dest, write_into=write_into, block_size=block))
+            after = mem_fs_tree(c.path_io.fs)
+            droot = P("/") / dest  # a source without a name adds no component, with or without write_into
+            exp = dict(before)
+            exp.update(ancestors(str(droot)))
+            exp.update({(str(droot).rstrip("/") + k) if k != "/" else str(droot): v for k, v in exp_src.items()})
+            if after != exp:
+                d = sdiff(after, exp)
+                kind = "misplaced" if d["missing"] and d["unexpected"] else ("missing" if d["missing"] else "unexpected")
+                raise Violation(f"C09/download_here/{kind}/write_into={write_into}", dict(dest=dest, target=target, cwd=cwd, **d))
         elif op == "listrec":
             await put(spio, t, "/r/src")
             target = "/r/src"
